@@ -37,14 +37,42 @@ def r07a(model: Model, rr: RuleResult):
     ucfg = cfg_of(u)
     k = [st for st in walk_body(u) if isinstance(st, ast.Assign) and "KEEP_GLYPH_NAMES" in norm(st.targets[0])]
     ok = False
-    if k and isinstance(k[0].value, ast.Name):
-        defs = ucfg.reaching(ucfg.node_for(k[0]), k[0].value.id)
-        srcs = sorted(norm(d.value) for d in defs)
-        forced = [d for d in defs if norm(d.value) == "True"]
-        if "config.keep_glyph_names" in srcs and forced:
-            f2 = [(norm(e), pol) for e, pol in guard_facts(ucfg, forced[0].node)]
-            ok = ("config.has_svgs", True) in f2 and ("config.has_picosvgs", True) in f2
-    if ok:
+    if k:
+        from ..dataflow import alternatives, resolved, fold_module_constants
+        from ..guards import canon_fact
+        v = k[0].value
+        if isinstance(v, ast.Name):
+            alts = alternatives(ucfg, ucfg.node_for(k[0]), v.id, u)
+        else:
+            alts = []
+            r = resolved(ucfg, ucfg.node_for(k[0]), v)
+
+            def emit(e, conds):
+                if isinstance(e, ast.IfExp):
+                    emit(e.body, conds + [canon_fact(e.test, True)])
+                    emit(e.orelse, conds + [canon_fact(e.test, False)])
+                else:
+                    alts.append((norm(e), conds))
+            emit(r, [])
+        cp = u.params[0] if u.params else "config"
+        vals = {a for a, _ in alts}
+        forced = [c for a, c in alts if a == "True"]
+        if vals == {"True", f"{cp}.keep_glyph_names"} and forced:
+            import re as _re
+
+            def exact(conds):
+                t = " ".join(x for x, pol in conds)
+                attrs = set(_re.findall(rf"\b{cp}\.(\w+)", t))
+                return attrs == {"has_svgs", "has_picosvgs"} and " or " not in t
+            ok = all(exact(c) for c in forced)
+            widened = [c for c in forced if not exact(c)]
+            if not ok and widened and any("has_svgs" in " ".join(x for x, _ in c) for c in widened):
+                rr.bad(u, k[0], f"glyph names are forced to be kept under {[x for x, _ in widened[0]]}, not only for picosvg builds: for the other formats nothing but the final "
+                       f"post-table fix-up strips them again, and that fix-up has its own condition", construct="_ufo: KEEP_GLYPH_NAMES forced beyond picosvg builds")
+                ok = None
+    if ok is None:
+        pass
+    elif ok:
         rr.ok("ufo2ft keeps glyph names when asked, and always for picosvg builds (the reshuffle matches glyphs by name)")
     else:
         rr.bad_shape(u, u.node, "KEEP_GLYPH_NAMES is not forced for picosvg builds / not taken from the option", construct="_ufo: KEEP_GLYPH_NAMES")
@@ -141,6 +169,21 @@ def svg_doclist_order(model: Model, rr: RuleResult):
                construct="_rawsvg_docs: documents in input order")
 
 
+def migrate_condition_ok(cfg, node, fi) -> Optional[bool]:
+    """_migrate_to_defs runs exactly when (the reused element belongs to another colour glyph) OR (it carries paint attributes): compared as truth tables,
+    so named booleans, De Morgan rewrites and `if not can_stay_in_place` forms are all recognised."""
+    from ..guards import call_condition, same_truth_table
+    A = "color_glyph.ufo_glyph_name == _color_glyph_name("
+    atoms, fn, n = call_condition(cfg, node, fi, mention=("_color_glyph_name(", "_attrib_apply_paint_uses("))
+    if n == 0:
+        return False
+    a_atoms = [a for a in atoms if " == " in a and "color_glyph.ufo_glyph_name" in a and "_color_glyph_name(" in a]
+    b_atoms = [a for a in atoms if a.startswith("_attrib_apply_paint_uses(") and a.endswith(")") and "&" not in a]
+    if len(a_atoms) != 1 or len(b_atoms) != 1 or len(atoms) != 2:
+        return False
+    return same_truth_table(atoms, fn, atoms, lambda v: (not v[a_atoms[0]]) or v[b_atoms[0]])
+
+
 @RULES.rule("C07", "R07d", "cross-glyph reuse goes through <defs> (no glyph element references content inside another glyph)", floor=2)
 def r07d(model: Model, rr: RuleResult):
     fi = model.func("svg", "_add_glyph")
@@ -148,9 +191,7 @@ def r07d(model: Model, rr: RuleResult):
     mig = find_calls(fi, "_migrate_to_defs")
     if len(mig) != 1:
         raise AnalysisError("_add_glyph: _migrate_to_defs call not found")
-    tests = [cfg.nodes[t].ast.test for t, lab in cfg.controlling_tests(cfg.node_for(mig[0])) if lab == "T" and hasattr(cfg.nodes[t].ast, "test")]
-    ok = any(isinstance(t, ast.BoolOp) and isinstance(t.op, ast.Or) and any("color_glyph.ufo_glyph_name != _color_glyph_name(" in norm(v) for v in t.values) for t in tests) \
-        or any("color_glyph.ufo_glyph_name != _color_glyph_name(" in norm(t) and not isinstance(t, ast.BoolOp) for t in tests)
+    ok = migrate_condition_ok(cfg, cfg.node_for(mig[0]), fi)
     if ok:
         rr.ok("_migrate_to_defs is taken whenever the reused element belongs to another colour glyph")
     else:
